@@ -656,7 +656,7 @@ theorem rangeLoop_of_find {t acc : Int} {l : List c06.Certificate} {P : c06.Cert
     storesNonEmpty := ld.1.length != 0, tokenVerifies := vf.2.isNone,
     chainRulesOk := (env.ValidateTimestampingCertChain vf.1).isNone,
     genTime := v.1.Value.ns, acc := v.1.Accuracy, revocationError := rv.2.isSome,
-    revocation := rv.1.map (fun c => C05.Tie.toR c.Result), tsaChainLen := vf.1.length }
+    revocation := rv.1.map C05.Tie.resOf, tsaChainLen := vf.1.length }
 
 theorem isSome_ite_some {β : Type} (c : Prop) [Decidable c] (x : β) (y : Option β) :
     (if c then some x else y).isSome = (decide c || y.isSome) := by
@@ -805,9 +805,14 @@ private def envAt (now : Int) (listed : Bool) : Env :=
     loadX509TSATrustStores := fun _ _ _ _ => ([⟨⟨"tsa root"⟩⟩], none),
     ParseSignedToken := fun _ => (tokenOk, none), ValidateTimestampingCertChain := fun _ => none }
 private def allOk : revocation.Validator :=
-  ⟨fun o => (o.CertChain.map fun _ => ⟨.ResultOK, [], .RevocationMethodUnknown⟩, none)⟩
+  ⟨fun o => (o.CertChain.map fun _ => some ⟨.ResultOK, [], .RevocationMethodUnknown⟩, none)⟩
 private def leafRevoked : revocation.Validator :=
-  ⟨fun _ => ([⟨.ResultRevoked, [], .RevocationMethodCRL⟩, ⟨.ResultOK, [], .RevocationMethodUnknown⟩], none)⟩
+  ⟨fun _ => ([some ⟨.ResultRevoked, [], .RevocationMethodCRL⟩, some ⟨.ResultOK, [], .RevocationMethodUnknown⟩], none)⟩
+/-- a validator that answers nil for the TSA root (and a result with a nil server result for the leaf) -/
+private def rootNil : revocation.Validator :=
+  ⟨fun _ => ([some ⟨.ResultOK, [none], .RevocationMethodOCSP⟩, none], none)⟩
+private def serverNil : revocation.Validator :=
+  ⟨fun o => (o.CertChain.map fun _ => some ⟨.ResultOK, [none], .RevocationMethodOCSP⟩, none)⟩
 private def x509 := signature.SigningSchemeX509
 
 -- expiry: equal to the clock fails, one nanosecond later passes, absent passes
@@ -828,6 +833,9 @@ example : (verifier.verifyTimestamp (envAt 500 true) "p" [] ⟨"afterCertExpiry"
 example : (verifier.verifyTimestamp (envAt 500 true) "p" [] ⟨"afterCertExpiry"⟩ ⟨0⟩ allOk (outcomeOf x509 10 0 [cert 50 51] [7])).isSome = true := by decide
 example : (verifier.verifyTimestamp (envAt 500 true) "p" [] ⟨"always"⟩ ⟨0⟩ leafRevoked (outcomeOf x509 10 0 [cert 49 51] [7])).isSome = true := by decide
 example : (verifier.verifyTimestamp (envAt 50 true) "p" [] ⟨""⟩ ⟨0⟩ allOk (outcomeOf x509 10 0 [cert 49 51] [])).isSome = true := by decide
+-- a nil entry in the TSA chain's revocation results fails closed; a nil server result inside an OK entry does not matter
+example : (verifier.verifyTimestamp (envAt 500 true) "p" [] ⟨"always"⟩ ⟨0⟩ rootNil (outcomeOf x509 10 0 [cert 49 51] [7])).isSome = true := by decide
+example : (verifier.verifyTimestamp (envAt 500 true) "p" [] ⟨"always"⟩ ⟨0⟩ serverNil (outcomeOf x509 10 0 [cert 49 51] [7])).isSome = false := by decide
 
 end Tie
 
